@@ -1,4 +1,5 @@
 import DepLogic.Model.Codec
+import DepLogic.Model.Tags
 /-
   Line-protocol interpreter over the executable model.
   One operation per input line (TAB separated), one answer line per operation.
@@ -15,6 +16,29 @@ def withSpec (s : String) (k : Spec Ver → String) : String :=
 
 def withGSpec (op v : String) (k : GSpec → String) : String :=
   match GOp.ofString? op with | some o => k ⟨o, v⟩ | none => bad
+
+def parseImpl : String → Option (Option Impl)
+  | "-" => some none
+  | "cpython" => some (some ⟨.cpython, false⟩)
+  | "cpython+nogil" => some (some ⟨.cpython, true⟩)
+  | "pypy" => some (some ⟨.pypy, false⟩)
+  | "pyston" => some (some ⟨.pyston, false⟩)
+  | _ => none
+
+def parsePlatOpt (s : String) : Option (Option Platform) :=
+  if s == "-" then some none
+  else match parsePlatform s with | .ok p => some (some p) | .error _ => none
+
+def withEnv (rp pl im : String) (k : EnvSpec → String) : String :=
+  match parseSpec rp, parsePlatOpt pl, parseImpl im with
+  | some r, some p, some i => k { requiresPython := r, platform := p, impl := i }
+  | _, _, _ => bad
+
+def showScore (x : Nat × Nat × Nat) : String := s!"{x.1},{x.2.1},{x.2.2}"
+
+def dotList (s : String) : List String := if s.isEmpty then [] else s.splitOn "."
+
+def showChars (l : List (List Char)) : String := ".".intercalate (l.map String.ofList)
 
 def handle (fields : List String) : String :=
   match fields with
@@ -55,6 +79,35 @@ def handle (fields : List String) : String :=
       match parseClauseL c.toList, parseVer v with
       | some cl, some w => match Pep440.matchesFinal cl w with | some b => showB b | none => "invalid"
       | _, _ => bad
+  -- tags (C08, C09, C16, C18)
+  | ["p.parse", t] =>
+      match parsePlatform t with
+      | .ok p => "ok\t" ++ p.str
+      | .error .valueError => "raise:ValueError"
+      | .error .unmodelled => "unmodelled"
+  | ["p.tags", t] =>
+      match parsePlatform t with
+      | .ok p => (match compatibleTags p with
+          | some l => ",".intercalate (l.map PTag.str)
+          | none => "raise:PlatformError")
+      | .error .valueError => "raise:ValueError"
+      | .error .unmodelled => "unmodelled"
+  | ["w.parse", f] =>
+      match parseWheelTags f.toList with
+      | .ok (a, b, c) => "ok\t" ++ showChars a ++ "\t" ++ showChars b ++ "\t" ++ showChars c
+      | .error .badExtension => "raise:InvalidWheelFilename:ext"
+      | .error .badPartCount => "raise:InvalidWheelFilename:parts"
+  | ["e.evalpy", rp, im, py, abi] => withEnv rp "-" im fun e =>
+      match evaluatePython e py abi with | none => "none" | some x => showScore x
+  | ["e.compat", rp, pl, im, py, abi, plat] => withEnv rp pl im fun e =>
+      match compatibility e (dotList py) (dotList abi) (dotList plat) with
+      | .error => "raise:PlatformError"
+      | .none => "none"
+      | .score x p => showScore x ++ "," ++ toString p
+  | ["e.compare", rp1, pl1, im1, rp2, pl2, im2] =>
+      withEnv rp1 pl1 im1 fun a => withEnv rp2 pl2 im2 fun b =>
+        match compare a b with
+        | .incompatible => "INCOMPATIBLE" | .lowerOrEqual => "LOWER_OR_EQUAL" | .higher => "HIGHER"
   | ["v.le", a, b] =>
       match parseVer a, parseVer b with
       | some x, some y => showB (decide (LinPre.le x y))
